@@ -18,6 +18,8 @@ class RawPeer:
         self.received = []   # (type, payload)
         self.eof = None      # None | "closed" | "reset"
         self.sent = 0
+        self.budget = None   # stop sending (stall) after this many bytes
+        self.stalled = False
 
     # -- connection -------------------------------------------------------------
     def connect(self, port=11112):
@@ -51,10 +53,18 @@ class RawPeer:
 
     # -- output -------------------------------------------------------------------
     def send(self, data):
+        if self.budget is not None:
+            left = self.budget - self.sent
+            if left <= 0:
+                self.stalled = True
+                return False
+            if len(data) > left:
+                data = data[:left]
+                self.stalled = True
         try:
             self.sock.sendall(data)
             self.sent += len(data)
-            return True
+            return not self.stalled
         except OSError as e:
             self.sim.record("raw_send_error", peer=self.name, exc=type(e).__name__)
             return False
